@@ -316,7 +316,7 @@ fn gen_term(r: &mut Rng) -> P {
     match r.below(10) {
         // nested lists: a variable or constant at depth two
         8 => if r.below(2) == 0 { P::Tup(Box::new(gen_leaf(r)), Box::new(gen_leaf(r))) } else { list(vec![list(vec![gen_leaf(r)])]) },
-        9 => list(vec![list(vec![gen_leaf(r)]), gen_leaf(r)]),
+        9 => if r.below(2) == 0 { list(vec![gen_leaf(r), list(vec![gen_leaf(r)])]) } else { list(vec![list(vec![gen_leaf(r)]), gen_leaf(r)]) },
         0 | 1 | 2 | 3 => gen_leaf(r),
         4 => list(vec![gen_leaf(r)]),
         5 | 6 => list(vec![gen_leaf(r), gen_leaf(r)]),
@@ -351,6 +351,12 @@ fn fixed() -> Vec<Vec<A>> {
         vec![A::Ne(v(0), n(1)), A::Ne(v(0), n(2)), A::Ne(v(1), v(0)), A::Or(vec![A::Eq(v(1), n(1))], vec![A::Eq(v(1), n(2))])],
         vec![A::Eq(v(0), list(vec![v(2), n(1)])), A::Ne(v(2), n(1)), A::Ne(v(1), v(2))],
         vec![A::Ne(P::Cons(Box::new(n(1)), Box::new(v(0))), list(vec![n(1), n(2)])), A::Eq(v(1), v(0))],
+        // a constrained variable in a nested list that is not the first element; a compound with two unbound variables
+        vec![A::Eq(v(0), list(vec![n(1), list(vec![v(1)])])), A::Ne(v(1), n(2))],
+        vec![A::Eq(v(0), list(vec![n(1), list(vec![n(2), v(2)])])), A::Ne(v(2), n(1)), A::Eq(v(1), v(2))],
+        vec![A::Eq(v(0), P::Tup(Box::new(v(1)), Box::new(v(2))))],
+        vec![A::Eq(v(0), P::Tup(Box::new(v(2)), Box::new(v(1)))), A::Ne(v(2), n(1))],
+        vec![A::Eq(v(0), list(vec![P::Tup(Box::new(v(2)), Box::new(n(1))), v(1)]))],
         // a tuple (compound term): a constrained variable inside it, a disequality between tuples
         vec![A::Eq(v(0), P::Tup(Box::new(v(2)), Box::new(n(1)))), A::Ne(v(2), n(2)), A::Eq(v(1), v(2))],
         vec![A::Eq(v(0), P::Tup(Box::new(v(1)), Box::new(n(1)))), A::Ne(v(1), n(2))],
